@@ -123,6 +123,9 @@ func c09(tier string) int {
 		uniformTableTier(run, "C09", true, &totalStates, &totalTrans)
 	}
 	totalTrans += pathExhaustive(run, tier, c09Monitor(run))
+	// Fault leg: the table must still be the table after a storage failure
+	// (verdicts of fault-free requests judged from what is really stored).
+	runFaults(run, "C09", tier, false)
 	run.Set("states", totalStates)
 	run.Set("transitions", totalTrans)
 	run.Set("traces_validated_against_impl", totalTrans)
